@@ -8,6 +8,7 @@ import (
 	"flag"
 	"fmt"
 	"os"
+	"strings"
 	"time"
 
 	"verifharness/replay"
@@ -34,6 +35,7 @@ type summary struct {
 	Samples     []json.RawMessage   `json:"samples"`
 	Replays     map[string][]string `json:"replays"`
 	WallS       float64             `json:"wall_s"`
+	TreeHook    bool                `json:"tree_hook"`
 	kept        map[string]int
 	ParseErrors int                 `json:"parse_errors"`
 }
@@ -149,19 +151,24 @@ func main() {
 		}
 		seen := map[string]bool{}
 		for _, mm := range mms {
-			if seen[mm.Prop] {
-				continue
-			}
-			seen[mm.Prop] = true
-			sum.ByProp[mm.Prop]++
-			sum.ByTag[mm.Tag]++
-			// one sample per owning property, so that every check finds its own
-			if sum.kept[mm.Prop] < *maxKeep {
-				sum.kept[mm.Prop]++
-				sum.Mismatches = append(sum.Mismatches, sample{History: inner(raw), Mismatch: mm, Mismatches: mms})
+			for _, owner := range strings.Split(mm.Prop, ",") {
+				if seen[owner] {
+					continue
+				}
+				seen[owner] = true
+				sum.ByProp[owner]++
+				sum.ByTag[mm.Tag]++
+				// one sample per owning property, so that every check finds its own
+				if sum.kept[owner] < *maxKeep {
+					sum.kept[owner]++
+					m2 := *mm
+					m2.Prop = owner
+					sum.Mismatches = append(sum.Mismatches, sample{History: inner(raw), Mismatch: &m2, Mismatches: mms})
+				}
 			}
 		}
 	}
+	sum.TreeHook = replay.HaveTreeHook
 	sum.WallS = time.Since(start).Seconds()
 	b, _ := json.MarshalIndent(sum, "", " ")
 	if *out == "" {
